@@ -180,6 +180,24 @@ def gen_case(rng, n_ops=None, invalid_rate=0.15, pf_level=True):
                         pfs[pid]['pend'].append((b_, q))
         elif k < 0.70:
             a = rng.choice(list(quotes))
+            heldish = [x for p in pfs.values() for x, v in p['held'].items() if v]
+            pending = {x for p in pfs.values() for (x, _) in p['pend']}
+            if heldish and rng.random() < 0.12:
+                # a bad feed: a held asset is quoted negative and the broker is asked to update, then asked again at the
+                # very same instant (a retry) — every such request must be refused and change nothing but the clock.
+                # Only for assets with no order waiting, so that no fill is ever priced off the bad quote.
+                cand = [x for x in heldish if x not in pending]
+                if cand:
+                    a = rng.choice(cand)
+                    good = quotes[a]
+                    m = gen_price(rng)
+                    ops.append(['px', a, -m, -m + rng.choice([0.0, 0.01, 0.5])])
+                    t = next_time(rng, now) if rng.random() < 0.7 else now
+                    now = t
+                    for _r in range(rng.choice([1, 2, 2, 3])):
+                        ops.append(['update', int(t)])
+                    ops.append(['px', a, good[0], good[1]])
+                    continue
             bid, ask = gen_quote(rng)
             ops.append(['px', a, bid, ask])
             quotes[a] = (bid, ask)
